@@ -23,6 +23,8 @@
          factorisation did to the rows.  Also: cols, and k+1 <= index[k] <= min (k+1+m1) n (what band_fwd_trace needs).
    band_solve_phases : band_solve B b = Ok x  went through exactly shift_rows, this main loop, this forward phase and this
          back substitution; D0 of the shifted matrix is the dense twin [dense_entry B] of Proofs/Banded.v.
+   band_history_shape : row r of L holds c_r <= r multipliers, of the CONSECUTIVE stages r - c_r .. r-1 (an entry stays in the
+         windows from the stage it enters until it is chosen as pivot row).
    Every statement about these loops -- at the rounded reals (Proofs/Round2BandB.v) as at any other instance -- reduces
    to a statement about one left fold per entry. *)
 From Coq Require Import List Arith Lia Bool.
@@ -814,3 +816,67 @@ Proof.
 Qed.
 
 End Phases.
+
+(* ================================================================ the shape of L *)
+Section HistShape.
+Context {A : Arith}.
+Notation T := (T A).
+Notation matrix := (matrix A).
+
+(* positions beyond the window have not been touched *)
+Lemma fhist_beyond n m1 (al : matrix) (index : list nat) k i :
+  (forall k', k' < n -> k' + 1 <= nth k' index 0 /\ nth k' index 0 <= fwin n m1 k') ->
+  k <= n -> Nat.min (k + m1) n <= i -> fhist n m1 al index k i = [] /\ fperm index k i = i.
+Proof.
+  intros Hix. induction k as [|k IH]; intros Hk Hi; [split; reflexivity|]. cbn [fhist fperm].
+  destruct (Hix k ltac:(lia)) as (P1 & P2). unfold fwin in *.
+  assert (Es : swp k (fpiv index k) i = i).
+  { unfold swp, fpiv. destruct (Nat.eqb_spec i k); [lia|]. destruct (Nat.eqb_spec i (nth k index 0 - 1)); [lia|reflexivity]. }
+  rewrite Es. replace (i <? Nat.min (k + 1 + m1) n) with false by (symmetry; apply Nat.ltb_ge; lia).
+  rewrite andb_false_r. apply IH; lia.
+Qed.
+
+(* the history of an entry not yet settled before stage k consists of the consecutive stages k - len .. k - 1 *)
+Lemma fhist_consecutive_open n m1 (al : matrix) (index : list nat) k i :
+  (forall k', k' < n -> k' + 1 <= nth k' index 0 /\ nth k' index 0 <= fwin n m1 k') ->
+  k <= n -> k <= i ->
+  forall t, t < length (fhist n m1 al index k i) ->
+    snd (nth t (fhist n m1 al index k i) (zero, 0)) = k - length (fhist n m1 al index k i) + t.
+Proof.
+  intros Hix. revert i. induction k as [|k IH]; intros i Hk Hi t Ht; [cbn in Ht; lia|]. cbn [fhist] in *.
+  destruct (Hix k ltac:(lia)) as (P1 & P2).
+  assert (Hs : k <= swp k (fpiv index k) i).
+  { unfold swp, fpiv. destruct (Nat.eqb_spec i k); [lia|]. destruct (Nat.eqb_spec i (nth k index 0 - 1)); lia. }
+  set (h := fhist n m1 al index k (swp k (fpiv index k) i)) in *.
+  pose proof (fhist_length_le n m1 al index k (swp k (fpiv index k) i)) as Hlen. fold h in Hlen.
+  destruct ((k <? i) && (i <? fwin n m1 k)) eqn:W.
+  - rewrite app_length in *. cbn [length] in *.
+    destruct (Nat.lt_ge_cases t (length h)) as [L|G].
+    + rewrite app_nth1 by exact L. pose proof (IH _ ltac:(lia) Hs t L) as E. fold h in E. rewrite E. lia.
+    + assert (t = length h) as -> by lia. rewrite app_nth2, Nat.sub_diag by lia. cbn [nth snd]. lia.
+  - (* not in the window: beyond it, nothing happened yet *)
+    apply andb_false_iff in W. assert (Hw : fwin n m1 k <= i).
+    { destruct W as [W|W]; apply Nat.ltb_ge in W; [lia|exact W]. }
+    assert (Es : swp k (fpiv index k) i = i).
+    { unfold swp, fpiv. destruct (Nat.eqb_spec i k); [lia|]. destruct (Nat.eqb_spec i (nth k index 0 - 1)); [lia|reflexivity]. }
+    unfold h in Ht. rewrite Es in Ht.
+    destruct (fhist_beyond n m1 al index k i Hix ltac:(lia) ltac:(unfold fwin in Hw; lia)) as (E0 & _).
+    rewrite E0 in Ht. cbn in Ht. lia.
+Qed.
+
+(* shape of the rows of L: row r holds c_r <= r multipliers, of the consecutive stages r - c_r .. r - 1 *)
+Theorem band_history_shape_lemma n m1 (al : matrix) (index : list nat) r :
+  (forall k, k < n -> k + 1 <= nth k index 0 /\ nth k index 0 <= fwin n m1 k) -> r < n ->
+  let h := fhist n m1 al index n r in
+  length h <= r /\ forall t, t < length h -> snd (nth t h (zero, 0)) = r - length h + t.
+Proof.
+  intros Hix Hr. cbn zeta.
+  assert (Hix' : forall k, k < n -> k + 1 <= nth k index 0) by (intros k Hk; apply Hix; exact Hk).
+  split; [now apply fhist_final_length|].
+  rewrite (fhist_settled n m1 al index r n) by (auto; lia). cbn [fhist].
+  rewrite Nat.ltb_irrefl. cbn [andb].
+  apply fhist_consecutive_open; [exact Hix|lia|].
+  unfold swp, fpiv. rewrite Nat.eqb_refl. specialize (Hix' r Hr). lia.
+Qed.
+
+End HistShape.
